@@ -1,5 +1,5 @@
 # per-property configuration of bin/check
-DOC_ASSUME = ["the reader event stream recorded by an independent pass is what into_struct/extend_struct consume (quick_xml::Reader is the input of the model)",
+DOC_ASSUME = ["the reader event stream recorded by an independent pass is what into_struct/extend_struct consume (quick_xml::Reader is the input of the event-level model; for the default configuration Model/Lexer.v models the reader itself and is compared with it on the inputs of every run)",
               "character classes are modelled exactly on the alphabet Sigma = ASCII + U+00A0..U+052F (compared exhaustively with std on every run); the generators draw names from Sigma only"]
 PROPS = {
     "C15": {
@@ -192,3 +192,16 @@ _s["translate"] = ",".join(x for x in [_s.get("translate"), "render", "entry", "
 _s = PROPS["C07"]
 _s["prop_files"] = _s.get("prop_files", ["C07"]) + ["C09rs", "C06rs", "C08rs", "Library"]
 _s["translate"] = ",".join(x for x in [_s.get("translate"), "render", "entry", "loop"] if x)
+
+# The step from bytes to reader events: Model/Lexer.v (quick_xml's reader in its default configuration
+# as a byte-at-a-time automaton), tied to the real reader by the lexer correspondence (group `lex`,
+# Corr/LexCorr.v) that the byte-level checks (C07, C08) and every document-based check run on their
+# own inputs.  Properties/Lexer.v restates the byte-level clauses for EVERY byte string
+# (LEX_no_stray_end discharges the hypothesis of C08_parse_err_iff; C07_bytes_*; C11_bytes_*).
+for _p in ("C07", "C08", "C11"):
+    _s = PROPS[_p]
+    _s["prop_files"] = _s.get("prop_files", [_p]) + ["Lexer"]
+for _p in ("C01", "C03", "C04", "C05", "C06", "C07", "C08", "C09", "C10", "C11", "C14"):
+    _s = PROPS[_p]
+    if "LexCorr" not in _s["corr"]:
+        _s["corr"] = _s["corr"] + ["LexCorr"]
